@@ -376,8 +376,20 @@ class Module:
                 g["init"] = self._init(g["init"])
         self.functions = {}
         self.by_cname = {}
+        from . import build
+        al = getattr(build, "ALIASES", {}) or {}
+        self.renamed = {}
         for f in d["functions"]:
             fn = Function(self, f)
+            if fn.cname in al:
+                # a pure rename of a function the rules know (build.Views._find_renames): analysed under its reference name
+                self.renamed[al[fn.cname]] = fn.cname
+                fn.cname = al[fn.cname]
+            if al:
+                for i in fn.insts():
+                    for l in (i.loc or []):
+                        if l.get("fn") in al:
+                            l["fn"] = al[l["fn"]]
             self.functions[fn.name] = fn
             self.by_cname.setdefault(fn.cname, []).append(fn)
 
